@@ -11,6 +11,7 @@ require (
 	github.com/NYTimes/gziphandler v1.1.1 // indirect
 	github.com/edsrzf/mmap-go v1.1.0 // indirect
 	golang.org/x/sys v0.18.0 // indirect
+	golang.org/x/text v0.14.0 // indirect
 )
 
 replace github.com/smhanov/syzgydb => /repo
